@@ -29,6 +29,7 @@ def run(ctx, crate):
     rule_invalidate(ctx, crate)
     rule_expansion(ctx, crate)
     rule_tabrewriter(ctx, crate)
+    rule_tab_sources_covered(ctx, crate)
     rule_getters(ctx, crate)
 
 
@@ -430,3 +431,49 @@ def rule_getters(ctx, crate, rule="R-TES-GETTERS"):
     e = crate.find(r"style::WideElement::<'_>::expand")
     if e:
         ctx.floor(rule, len(e[0].calls(TES_EXP)), 1, cfg, "expanded() uses in WideElement::expand")
+
+
+def rule_tab_sources_covered(ctx, crate, rule="R-TAB-SOURCES-COVERED"):
+    """"No TAB character ever reaches the terminal inside a bar line": besides the four kinds of text the statement lists, a line is
+    built from two style tables the user fills with arbitrary strings - the tick strings and the progress characters.
+      (a) in `format_state` no string is appended raw: every `push_str` into the placeholder buffer or the line takes its text
+          from `TabExpandedString::expanded()` (message, prefix, literals) or from the buffer itself; everything else (custom keys,
+          tick strings) goes through `TabRewriter`;
+      (b) the progress characters cannot hold a tab: every function that stores `progress_chars` from an argument filters '\t'
+          out of it first (a tab is no cell of a bar: `format_bar` writes the clusters as they are, and their width is what the
+          geometry is computed from)."""
+    cfg = crate.config
+    F = K.find_one(ctx, crate, rule, r"style::ProgressStyle::format_state")
+    n = 0
+    if F:
+        for k, c in enumerate(F.calls(r"std::string::String::push_str")):
+            if len(c.args) < 2:
+                continue
+            n += 1
+            a = c.args[1]
+            l = operand_local(a) if a.get("k") != "const" else None
+            origins = {tl for tl, tp in F.ref_origins().get(l, ())} if l is not None else set()
+            from_string = any(F.locals[o]["ty"] == "std::string::String" for o in origins)
+            sl = F.slice_args(c, [1], through_calls=False)
+            ok = a.get("k") == "const" or from_string or sl.has_call(r"state::TabExpandedString::expanded")
+            what = "tick string" if F.slice_args(c, [1]).has_call(r"style::ProgressStyle::(current_tick_str|get_tick_str|get_final_tick_str)") else "text"
+            ctx.check(ok, rule, "no-raw-push#%d" % k, F.name, c.loc(),
+                      "text appended to a bar line is tab-expanded (TabExpandedString::expanded) or already in the buffer",
+                      "format_state appends a %s to the line as it is: a tab in it reaches the terminal unexpanded (`tick_strings(&[\"a\\tb\", ..])` with {spinner})" % what, cfg)
+    PSTY = "style::ProgressStyle"
+    for b in K.lib_bodies(crate):
+        if b.kind == "Closure" or ((b.impl or {}).get("trait") or "").startswith("std::clone::Clone"):
+            continue
+        for i, j, s in b.assigns():
+            fs = place_fields(s["lhs"])
+            if not fs or fs[-1][0] != PSTY or fs[-1][2] != "progress_chars":
+                continue
+            sl = b.slice_rv(i, s)
+            if not sl.params():
+                continue            # installed from a literal
+            n += 1
+            filt = any(c.matches(r"(std|core|alloc)::str::<impl str>::(replace|replacen)") and len(c.args) > 1 and c.args[1].get("k") == "const" and c.args[1].get("v") == "\t" for c in sl.calls)
+            ctx.check(filt, rule, "progress-chars-no-tab:%s" % K.meth(b.name), b.name, "%s:%d" % (b.file, s.get("line", 0)),
+                      "tabs are filtered out of the progress characters when they are installed",
+                      "%s installs progress characters that may contain a tab: format_bar writes the clusters as they are, so `progress_chars(\"#\\t-\")` sends a TAB to the terminal" % K.meth(b.name), cfg)
+    ctx.floor(rule, n, 4, cfg, "raw appends in format_state + progress_chars installers")
